@@ -164,3 +164,67 @@ contract(
     modifies=["self.cells"],
     name="debump_biomolecule", native=False,
 )
+
+
+# ---------------------------------------------------------------- stored torsions and atom ranks (the inputs of every move)
+def XA(nm, name):
+    return Named(nm, Obj("pdb2pqr.structures:Atom", name=Const(name), x=Real, y=Real, z=Real, bonds=Items(), refdistance=Const(0)))
+
+
+def atc(c, a):
+    return c[0] == a.x and c[1] == a.y and c[2] == a.z
+
+
+contract(
+    "pdb2pqr.biomolecule:Biomolecule.calculate_dihedral_angles", ["C15", "C04"],
+    params={"self": Obj("pdb2pqr.biomolecule:Biomolecule", residues=Items(
+        Named("rw", Obj("pdb2pqr.aa:WAT", name=Const("HOH"), dihedrals=Items(Const(7)))),
+        Named("rl", Obj("pdb2pqr.aa:LYS", name=Const("LYS"), dihedrals=Items(Real, Real, Real),
+                        reference=Obj("Ref", dihedrals=Items(Const("N CA CB CG"), Const("CA CB CG CD"), Const("CB CG CD CE"))),
+                        map=DictOf(("N", XA("n", "N")), ("CA", XA("ca", "CA")), ("CB", XA("cb", "CB")), ("CG", XA("cg", "CG")),
+                                   ("CD", XA("cd", "CD")))))))},
+    requires=[],
+    ensures=[
+        # one entry per template dihedral, in template order; measured on the current coordinates of exactly its four atoms;
+        # None when one of them is missing (here CE) - never a stale or made-up number
+        "len(rl.dihedrals) == 3 and len(calls_of('dihedral')) == 2",
+        "rl.dihedrals[0] is calls_of('dihedral')[0].ret and rl.dihedrals[1] is calls_of('dihedral')[1].ret and rl.dihedrals[2] is None",
+        "atc(calls_of('dihedral')[0].args['coords1'], n) and atc(calls_of('dihedral')[0].args['coords2'], ca) "
+        "and atc(calls_of('dihedral')[0].args['coords3'], cb) and atc(calls_of('dihedral')[0].args['coords4'], cg)",
+        "atc(calls_of('dihedral')[1].args['coords1'], ca) and atc(calls_of('dihedral')[1].args['coords2'], cb) "
+        "and atc(calls_of('dihedral')[1].args['coords3'], cg) and atc(calls_of('dihedral')[1].args['coords4'], cd)",
+        "rw.dihedrals[0] == 7",
+    ],
+    trace={"pdb2pqr.utilities:dihedral": Real},
+    modifies=["rl.dihedrals", "rl.dihedrals.*"],
+    name="calculate_dihedral_angles", native=False,
+)
+
+
+# atom ranks: backbone and terminal-cap atoms -1 (they never rotate with a side-chain torsion), every other atom its bond
+# distance to CA - on a residue that is N- AND C-terminal at once, with a branch (two atoms at the same distance)
+def RA(nm, name, bonds):
+    return Named(nm, Obj("pdb2pqr.structures:Atom", name=Const(name), bonds=Items(*[Ref(b) for b in bonds]), refdistance=Int))
+
+
+_ATOMS = [("q_n", "N", ["q_ca", "q_h2"]), ("q_ca", "CA", ["q_n", "q_c", "q_cb"]), ("q_c", "C", ["q_ca", "q_o", "q_oxt"]),
+          ("q_o", "O", ["q_c"]), ("q_oxt", "OXT", ["q_c"]), ("q_h2", "H2", ["q_n"]), ("q_cb", "CB", ["q_ca", "q_cg1", "q_cg2"]),
+          ("q_cg1", "CG1", ["q_cb", "q_cd1"]), ("q_cg2", "CG2", ["q_cb"]), ("q_cd1", "CD1", ["q_cg1"])]
+
+contract(
+    "pdb2pqr.biomolecule:Biomolecule.set_reference_distance", ["C04", "C05"],
+    params={"self": Obj("pdb2pqr.biomolecule:Biomolecule", residues=Items(
+        Obj("pdb2pqr.aa:WAT", name=Const("HOH")),
+        Obj("pdb2pqr.aa:ILE", name=Const("ILE"), is_n_term=Enum(0, 1), is_c_term=Enum(0, 1),
+            atoms=Items(*[Ref(a[0]) for a in _ATOMS]),
+            map=DictOf(*[(a[1], RA(*a)) for a in _ATOMS]))))},
+    requires=[],
+    ensures=[
+        "q_n.refdistance == -1 and q_ca.refdistance == -1 and q_c.refdistance == -1 and q_o.refdistance == -1",
+        "q_cb.refdistance == 1 and q_cg1.refdistance == 2 and q_cg2.refdistance == 2 and q_cd1.refdistance == 3",
+        # caps: frozen when the residue is that terminus (otherwise they are ordinary atoms hanging off the backbone)
+        "implies(self.residues[1].is_c_term, q_oxt.refdistance == -1) and implies(self.residues[1].is_n_term, q_h2.refdistance == -1)",
+    ],
+    raises={"ValueError": "False"},
+    name="set_reference_distance", native=False,
+)
